@@ -271,6 +271,22 @@ func c16Bytes(c *engine.Ctx, in []byte, args map[string]string) {
 		c.Fail("ToLower", fmt.Sprintf("ToLower(%q)=%q want %q", in, got, lower))
 	}
 	if len(in) == 1 {
+		// every target byte against this byte, alone and inside a word: equal exactly when the target is its ASCII lower-case form
+		for t := 0; t < 256; t++ {
+			if t >= 'A' && t <= 'Z' {
+				continue // the documented contract: the target is lower-case
+			}
+			want := asciiLower(in)[0] == byte(t)
+			if got := parse.EqualFold(b, []byte{byte(t)}); got != want {
+				c.Fail("EqualFold", fmt.Sprintf("EqualFold(%q, %q)=%v want %v", in, []byte{byte(t)}, got, want))
+				break
+			}
+			s3, t3 := []byte{'U', in[0], 'f'}, []byte{'u', byte(t), 'f'}
+			if got := parse.EqualFold(s3, t3); got != want {
+				c.Fail("EqualFold", fmt.Sprintf("EqualFold(%q, %q)=%v want %v", s3, t3, got, want))
+				break
+			}
+		}
 		ch := in[0]
 		if parse.IsWhitespace(ch) != refIsWS(ch) || parse.IsNewline(ch) != (ch == '\n' || ch == '\r') {
 			c.Fail("IsWhitespace/IsNewline", fmt.Sprintf("byte %#x: IsWhitespace=%v IsNewline=%v", ch, parse.IsWhitespace(ch), parse.IsNewline(ch)))
@@ -525,7 +541,7 @@ func c16Finish(c *engine.Ctx, cov map[string]interface{}) string {
 func init() {
 	register(&engine.Check{
 		ID: "C16", Level: "exploration",
-		Rule:        "all strings ≤7 over {+ - . 0 9 e E a % x} for Number/Dimension vs the documented regexp (longest match); all 256 bytes and all strings over two alphabets for EncodeURL (both tables, three capacities) and DecodeURL (inverse on every encoded string; equals url.QueryUnescape wherever that succeeds); DataURI on every payload ≤3 bytes over 10 byte values × {base64, spaced base64, percent-encoding of everything outside the unreserved set, of what DataURIEncodingTable marks, of the bare minimum} × 5 media types and on all strings ≤5 atoms over data-URI fragments; Mediatype on all strings ≤7 atoms (lower-case and mixed-case alphabets) vs mime.ParseMediaType where that succeeds; EqualFold/ToLower/TrimWhitespace/IsAllWhitespace/IsWhitespace/IsNewline on all bytes and all strings ≤4 over 15 atoms; css/html ToHash on every constant (read from the current source), its case variants, every single-edit neighbour and all strings ≤4 over the table's letters vs a plain map",
+		Rule:        "all strings ≤7 over {+ - . 0 9 e E a % x} for Number/Dimension vs the documented regexp (longest match); all 256 bytes and all strings over two alphabets for EncodeURL (both tables, three capacities) and DecodeURL (inverse on every encoded string; equals url.QueryUnescape wherever that succeeds); DataURI on every payload ≤3 bytes over 10 byte values × {base64, spaced base64, percent-encoding of everything outside the unreserved set, of what DataURIEncodingTable marks, of the bare minimum} × 5 media types and on all strings ≤5 atoms over data-URI fragments; Mediatype on all strings ≤7 atoms (lower-case and mixed-case alphabets) vs mime.ParseMediaType where that succeeds; EqualFold/ToLower/TrimWhitespace/IsAllWhitespace/IsWhitespace/IsNewline on all bytes and all strings ≤4 over 15 atoms, EqualFold on all (byte, lower-case target byte) pairs; css/html ToHash on every constant (read from the current source), its case variants, every single-edit neighbour and all strings ≤4 over the table's letters vs a plain map",
 		Assumptions: []string{"media types starting with ';' (parameters only) are not generated"},
 		Setup:       c16Setup, Work: c16Work, Finish: c16Finish,
 	})
